@@ -273,6 +273,28 @@ def cases(rng: random.Random, tier: str):
 # ------------------------------------------------------------------------------------------ real code
 
 
+class _recursion_guard:
+    """id_star nests a few dozen frames on the <= 6-node graphs of the harness (proved bound of the recursion: 2|V|+3 calls,
+    plus deepcopy / networkx frames below each).  A change that makes the recursion endless would otherwise climb to the
+    interpreter's default limit of 1000 frames on every such input and on every shrink candidate (two mutants of campaign C
+    exceeded the 900 s budget that way).  Inside the guard the limit is the current depth + 400; a RecursionError is an
+    ordinary 'err' outcome (a crash on valid input), which the unchanged code never produces."""
+
+    def __enter__(self):
+        import sys
+        f, n = sys._getframe(), 0
+        while f is not None:
+            n += 1
+            f = f.f_back
+        self.old = sys.getrecursionlimit()
+        sys.setrecursionlimit(max(n + 400, 300))
+
+    def __exit__(self, *a):
+        import sys
+        sys.setrecursionlimit(self.old)
+        return False
+
+
 def _run_real(case, strategy):
     import networkx as nx
     from y0.algorithm.identify import Unidentifiable, id_star
@@ -280,7 +302,7 @@ def _run_real(case, strategy):
     graph = G.to_nx_mixed(case["g"])
     event = K.dec_event(case["event"])
     try:
-        with K.fixed_orders(strategy):
+        with K.fixed_orders(strategy), _recursion_guard():
             est = id_star(graph, event)
     except Unidentifiable:
         return ["unidentifiable"], None
